@@ -21,8 +21,25 @@ def load_known():
     return {e["id"]: e for e in data.get("findings", [])}
 
 
+def _die_with_parent():
+    """Workers must not outlive the check (a killed ./check would otherwise leave them running)."""
+    try:
+        import ctypes
+        import signal
+
+        ctypes.CDLL("libc.so.6", use_errno=True).prctl(1, signal.SIGKILL)   # PR_SET_PDEATHSIG
+        if os.getppid() == 1:
+            os._exit(1)
+    except Exception:  # noqa: BLE001
+        pass
+
+
 def _shard_worker(args):
     pid, tier, seed, shard = args
+    import multiprocessing as _mp
+
+    if _mp.current_process().name != "MainProcess":
+        _die_with_parent()
     from . import session
 
     session.start_trace()
